@@ -53,7 +53,7 @@ func init() {
 		Classify: classify,
 		Shrink:   shrink,
 		Parallel: true,
-		Extras:   []core.Extra{Utf8TieExtra()},
+		Extras:   []core.Extra{Utf8TieExtra(), TransDiffUtf8Extra()},
 		Assumptions: []string{
 			"Go int = int64: arguments up to MaxInt64 are generated; for Mask the theorem c17_mask_int64_exact shows the repaired code never wraps, Sub/SubByDisplay only compare (a wrapped start+length is negative, hence != count like the exact sum); strings.Repeat never exhausts memory (mask count <= rune count)",
 			"lean/Golib/Prelude/Utf8.lean equals unicode/utf8 (DecodeRuneInString, RuneCountInString, RuneLen, the range loop, WriteRune): compared with the standard library exhaustively on every run (extra utf8-prelude-exhaustive-tie: all inputs of <= 2 bytes, all 3-byte inputs with a multi-byte leader, boundary-complete 4-byte inputs, every int32 rune around the scalar range) and through every differential call",
